@@ -149,6 +149,8 @@ def cases(draw, tier):
         args["n_tridiag"] = draw(st.sampled_from([0, 0, 1]))
         case["args"] = args
         case["x0"] = None
+        if draw(st.booleans()):
+            case["flags"] = draw(st.sampled_from([{"debug": False}, {"debug": False}, {"memory_efficient": True}, {"trace_mode": True}, {"terminate_cg_by_size": True}]))
         return case
     degenerate = any(k in ("zero", "tiny") for k in kinds)
     if not degenerate and draw(st.integers(0, 3)) == 0:
@@ -934,6 +936,10 @@ def _fam_error(S, case, labels):
         cell = {"max_lanczos_quadrature_iterations": args["max_iter"] + 1 + case["pos"] % 5}
     else:
         raise HarnessError("unknown error kind %r" % kind)
+    if case.get("flags"):
+        # the statement is unconditional: NaNs and inconsistent limits raise whatever other global settings are active
+        cell = dict(cell, **case["flags"])
+        labels.append("flags:" + ",".join(sorted(case["flags"])))
     desc = _brief(S, pc, args) + " settings=%s" % cell
     out = _run(S, pc, args, b_lib=b_lib, A_lib=A_lib, settings=cell, what="raises", expect_raise=True)
     if out["raised"] is None:
